@@ -125,7 +125,15 @@ func (m MapSchema[K, V]) Unserialize(data any) (any, error) {
 		if err != nil {
 			return nil, ConstraintErrorAddPathSegment(err, fmt.Sprintf("[%v]", k.Interface()))
 		}
-		result.SetMapIndex(reflect.ValueOf(unserializedKey), reflect.ValueOf(unserializedValue))
+		keyValue := reflect.ValueOf(unserializedKey)
+		if result.MapIndex(keyValue).IsValid() {
+			// Two raw keys (for example 1 and "1") stand for the same key. Which of their values survived would
+			// depend on the iteration order of the input map.
+			return nil, &ConstraintError{
+				Message: fmt.Sprintf("Duplicate key %v: more than one key of the input unserializes to it", unserializedKey),
+			}
+		}
+		result.SetMapIndex(keyValue, reflect.ValueOf(unserializedValue))
 	}
 	return result.Interface(), nil
 }
